@@ -56,9 +56,46 @@ def gen(files):
             m = re.match(r'^(\s*)([A-Za-z_][A-Za-z0-9_\.]*) (\+|-)= (.*);\s*$', l)
             if m:
                 add('compound-assign-spelled-out', '%s%s = %s %s (%s);' % (m.group(1), m.group(2), m.group(2), m.group(3), m.group(4)))
+            m = re.match(r'^(\s*)if (!?)([A-Za-z_][A-Za-z0-9_\.]*(?:\(\))?) \{\s*$', l)
+            if m:
+                add('bool-compared-with-literal', '%sif %s == %s {' % (m.group(1), m.group(3), 'false' if m.group(2) else 'true'))
+            m = re.search(r'([A-Za-z_][A-Za-z0-9_\.]*)\.take\(\)', l)
+            if m and 'if let' not in l and 'match' not in l:
+                add('take->ufcs', l.replace(m.group(0), 'Option::take(&mut %s)' % m.group(1), 1))
+                add('take->mem-replace', l.replace(m.group(0), 'core::mem::replace(&mut %s, None)' % m.group(1), 1))
+            m = re.match(r'^(\s*)if let Some\((.*?)\) = (.*\.take\(\)) \{\s*$', l)
+            if m:
+                add('scrutinee-through-temporary', '%slet tmp_benign_scrutinee = %s; if let Some(%s) = tmp_benign_scrutinee {' % (m.group(1), m.group(3), m.group(2)))
+            m = re.match(r'^(\s*)([A-Za-z_][A-Za-z0-9_]*)\.wake\(\);\s*$', l)
+            if m:
+                add('wake->ufcs', '%score::task::Waker::wake(%s);' % (m.group(1), m.group(2)))
+            m = re.match(r'^(\s*)(self\.[a-z_]*waiters)\.(add_front|remove_last|remove_first)\((.*)\);\s*$', l)
+            if m:
+                add('queue-op-through-reborrow', '%s{ let q_benign = &mut %s; q_benign.%s(%s); }' % (m.group(1), m.group(2), m.group(3), m.group(4)))
             m = re.match(r'^(\s*)((?:self|wait_node|mut_self|node|waiter|last_waiter)\.[A-Za-z0-9_\.]*) = ([^;]*);\s*$', l)
             if m and '{' not in l and 'unsafe' not in l:
                 add('through-temporary', '%slet tmp_benign_value = %s; %s = tmp_benign_value;' % (m.group(1), m.group(3), m.group(2)))
+        # if c { A } else { B }  ->  if !(c) { B } else { A }   (brace matched, no else-if chains)
+        for i, l in code:
+            m = re.match(r'^(\s*)if (?!let)(.*) \{\s*$', l)
+            if not m or '=>' in l:
+                continue
+            ind = m.group(1)
+            j = i + 1
+            while j < len(lines) and not (lines[j].startswith(ind + '}') and not lines[j].startswith(ind + ' ')):
+                j += 1
+            if j >= len(lines) or lines[j].rstrip() != ind + '} else {':
+                continue
+            k = j + 1
+            while k < len(lines) and not (lines[k].startswith(ind + '}') and not lines[k].startswith(ind + ' ')):
+                k += 1
+            if k >= len(lines) or lines[k].rstrip() not in (ind + '}', ind + '};'):
+                continue
+            if i > 0 and lines[i - 1].rstrip().endswith('else'):
+                continue
+            new = [ind + 'if !(%s) {' % m.group(2)] + lines[j + 1:k] + [ind + '} else {'] + lines[i + 1:j] + [lines[k]]
+            muts.append({'file': f, 'line': i, 'kind': 'if-else-swapped', 'old': l, 'new': '\n'.join(new),
+                         'span': k - i + 1})
     return muts
 
 
